@@ -961,7 +961,7 @@ fn floats_f32_all(sink: &mut Sink) {
 
 // ------------------------------------------------------------------------------------------ C16
 const BYTE_ALPHABET: [u8; 17] = [0x41, 0x7F, 0x80, 0x8F, 0x90, 0x9F, 0xA0, 0xBF, 0xC0, 0xC2, 0xDF, 0xE0, 0xE1, 0xED, 0xF0, 0xF4, 0xFF];
-const U16_ALPHABET: [u16; 8] = [0x61, 0x07FF, 0xFFFF, 0xD800, 0xDBFF, 0xDC00, 0xDFFF, 0xE000];
+const U16_ALPHABET: [u16; 11] = [0x61, 0x7F, 0x80, 0x0800, 0x07FF, 0xFFFF, 0xD800, 0xDBFF, 0xDC00, 0xDFFF, 0xE000];
 
 fn decode(rng: &mut Rng, n: usize, sink: &mut Sink, scripted: bool) {
     // all byte strings up to length n over the class alphabet (n <= 4 scripted; more: oracle only)
